@@ -71,7 +71,7 @@ package storage
 
 // The counter is handed over when a new log file is started.
 //@ func (*Manager).rotateWAL
-//@   requires SeqInv(m)
+//@   requires SeqInv(m) && lockstate(m.wal.mu) == 0 && lockstate(m.wal.observersMu) == 0
 //@   ensures[C08,C01] SeqInv(m)
 //@   ensures[C08,C01] m.wal.nextSequence >= old(m.wal.nextSequence)
 //@   ensures[C08] m.lastSeqNum == old(m.lastSeqNum) && m.memTablePool.maxStamp == old(m.memTablePool.maxStamp)
@@ -114,3 +114,26 @@ package storage
 //@ func (*Manager).scheduleFlush
 //@   requires PoolReady(m) && lockset(m.mu, W)
 //@   ensures[C06,C07] PoolReady(m) && err == nil
+
+//@ func (*Manager).RotateWAL
+//@   requires SeqInv(m) && lockset()
+//@   ensures[C06,C07,C08] SeqInv(m)
+//@ func (*Manager).GetSSTables
+//@   requires lockset()
+//@   ensures[C07] true
+//@ func (*Manager).ReloadSSTables
+//@   requires lockset()
+//@   ensures[C07] true
+
+// IsDeleted: same layer order as Get.
+//@ func (*Manager).IsDeleted
+//@   requires lockset() && PoolOK(m) && !m.closed && (forall i int :: 0 <= i && i < len(m.sstables) ==> m.sstables[i] != nil)
+//@   ensures[C01] MTHas(m.memTablePool.active, bstr(key)) ==> err == nil && result0 == MTDel(m.memTablePool.active, bstr(key))
+//@   ensures[C01] NoMemHas(m, bstr(key)) && m.hit >= 0 ==> m.hit < len(m.sstables) && m.sstables[m.hit].has[bstr(key)] && (forall j int :: m.hit < j && j < len(m.sstables) ==> !m.sstables[j].has[bstr(key)]) && err == nil && result0 == m.sstables[m.hit].del[bstr(key)]
+//@   ensures[C01] NoMemHas(m, bstr(key)) && m.hit < 0 ==> err == ErrKeyNotFound && (forall i int :: 0 <= i && i < len(m.sstables) ==> !m.sstables[i].has[bstr(key)])
+//@   ghost entry: m.hit = 0 - 1
+//@   ghost after call (*Iterator).IsTombstone#1: m.hit = i
+//@ loop (*Manager).IsDeleted#1
+//@   invariant[C01] 0 - 1 <= i && i < len(m.sstables) && NoMemHas(m, bstr(key)) && m.hit == 0 - 1
+//@   invariant[C01] forall j int :: i < j && j < len(m.sstables) ==> !m.sstables[j].has[bstr(key)]
+//@   invariant[C01] forall j int :: 0 <= j && j < len(m.sstables) ==> m.sstables[j] != nil
